@@ -120,6 +120,14 @@ def corpus_chunks():
            ("{1: x, a: y}", ["[a:z]"]), ("[a]", ["[.={[1]:2}]"]), ("['{[1]: 2}']", ["[.=a]"])]
 
 
+def extra_requests(case):
+    return ec.frag_requests(case)
+
+
+def model_stats(case, outs):
+    return ec.frag_stats(case, outs)
+
+
 def chunks(tier, seed):
     import itertools
     return ec.chunks_by_weight(itertools.chain(ec.gen_kw_cases(tier, seed),
